@@ -57,7 +57,7 @@ def targets(ctx):
         if got != want:
             out.append(("ref_to_bp", f"betterproto decodes reference bytes as {got!r}, want {want!r}; bytes={ref_bytes.hex()[:200]}"))
         # legal re-encodings
-        if ops:
+        if [o for o in ops if o != "override"]:
             st_ = {} if stats is None else stats
             e = wire.reencode(schema, mi, ref_bytes, ops, random.Random(xseed), stats=st_)
             if e != ref_bytes:
@@ -75,6 +75,39 @@ def targets(ctx):
                     got = norm(schema, mi, guard("snapshot_re", snap_bp, schema, mi, m3))
                     if got != want:
                         out.append(("reencoded_to_bp", f"ops={sorted(k for k in st_ if k not in ('accepted',))} got={got!r} want={want!r} enc={e.hex()[:240]}"))
+
+        # last one wins, also when the LAST occurrence carries the default value: append later occurrences of
+        # singular scalar fields (proto3 optional too) with a new value; the expectation changes accordingly
+        if "override" in ops:
+            rng = random.Random(xseed)
+            cand = [fi for fi in mi.fields if fi.name in tree and fi.card in ("single", "optional") and not fi.oneof
+                    and fi.type != "message"]
+            rng.shuffle(cand)
+            tree2, extra = dict(tree), b""
+            for fi in cand[:2]:
+                zero = {"string": "", "bytes": b"", "bool": False, "float": 0.0, "double": 0.0}.get(fi.type, 0)
+                other = {"string": "later", "bytes": b"\x01", "bool": True, "float": 2.5, "double": -2.5}.get(fi.type, 1)
+                newv = zero if rng.random() < 0.7 else other
+                tree2[fi.name] = newv
+                wt, payload = wire.enc_scalar(fi.type, newv)
+                extra += wire.make_record(fi.number, wt, payload).raw
+            if extra:
+                data = ref_bytes + extra
+                want2 = norm(schema, mi, tree2)
+                try:
+                    ok = norm(schema, mi, snap_ref(schema, mi, c.ref.cls(mi.full_name).FromString(data))) == want2
+                except Exception:  # noqa: BLE001
+                    ok = False
+                if ok:
+                    if stats is not None:
+                        stats["accepted"] = 1
+                        stats["override_last_default" if any(not v for k, v in tree2.items() if tree.get(k) != v or k not in tree) else "override_last_other"] = 1
+                    m4 = guard("parse_override", cls().parse, data)
+                    got = norm(schema, mi, guard("snapshot_ov", snap_bp, schema, mi, m4))
+                    if got != want2:
+                        out.append(("later_occurrence_does_not_win", f"got={got!r} want={want2!r} enc={data.hex()[:240]}"))
+                elif stats is not None:
+                    stats["discarded_by_reference"] = stats.get("discarded_by_reference", 0) + 1
 
     def fails_clause(route, ops, xseed, clause):
         def f(mi, tree):
@@ -110,7 +143,7 @@ def targets(ctx):
     def strat(draw):
         case = dict(draw(base))
         case["route"] = draw(st.sampled_from(["kwargs", "setattr", "lazy"]))
-        case["ops"] = draw(st.lists(st.sampled_from(wire.ALL_OPS), max_size=4, unique=True))
+        case["ops"] = draw(st.lists(st.sampled_from(wire.ALL_OPS + ("override",)), max_size=4, unique=True))
         case["xseed"] = draw(st.integers(0, 2**16))
         return case
 
@@ -122,7 +155,7 @@ def targets(ctx):
     def dense(draw):
         case = dict(draw(dense_base))
         case["route"] = "kwargs"
-        case["ops"] = draw(st.lists(st.sampled_from(wire.ALL_OPS), min_size=1, max_size=3, unique=True))
+        case["ops"] = draw(st.lists(st.sampled_from(wire.ALL_OPS + ("override",)), min_size=1, max_size=3, unique=True))
         case["xseed"] = draw(st.integers(0, 2**16))
         return case
 
